@@ -994,6 +994,28 @@ pub fn explore_cfg(cfg: &SysCfg, ch: &Chains, bound: usize, wall_cap: Duration, 
         max_deviation_pos: 0,
     };
     explore_deviations(&dc, |p, keep| run_exec(cfg, ch, p, keep), &mut r)?;
+    if !r.violations.is_empty() {
+        // simplest counterexample first: re-explore with growing bounds and report the
+        // executions with the fewest deviations (the parallel DFS above finds them in any order)
+        for b in 0..bound {
+            let mut scratch = Report::new();
+            let dc = DevConfig {
+                bound: b,
+                wall_cap,
+                max_execs,
+                max_deviation_pos: 0,
+            };
+            explore_deviations(&dc, |p, keep| run_exec(cfg, ch, p, keep), &mut scratch)?;
+            if !scratch.violations.is_empty() {
+                let keys: BTreeSet<String> = scratch.violations.iter().map(|v| v.key.clone()).collect();
+                r.violations.retain(|v| !keys.contains(&v.key));
+                scratch.violations.sort_by_key(|v| v.case["choices"].as_array().map(|a| a.len()).unwrap_or(0));
+                scratch.violations.append(&mut r.violations);
+                r.violations = scratch.violations;
+                break;
+            }
+        }
+    }
     for v in r.violations.iter_mut() {
         v.case["config"] = serde_json::json!(cfg.name);
     }
